@@ -70,6 +70,9 @@ pub struct Cfg {
     pub prefix_chunks: u16,
     /// Leave this many vital chunks per side unacknowledged at the start.
     pub prefix_unacked: u8,
+    /// A duplicate of each side's first vital datagram of the prefix is still in flight when
+    /// exploration starts (delayed across `prefix_chunks` sequence numbers - allowed below 1024).
+    pub prefix_stale: bool,
     pub c01: bool,
     pub c02: bool,
     pub c03: bool,
@@ -91,6 +94,7 @@ impl Cfg {
             disconnects: 0,
             prefix_chunks: 0,
             prefix_unacked: 0,
+            prefix_stale: false,
             c01: true,
             c02: false,
             c03: false,
@@ -101,7 +105,7 @@ impl Cfg {
         json!({
             "variant": self.variant.name(), "vsends": self.vsends, "nsends": self.nsends, "sizes": self.sizes,
             "drops": self.drops, "dups": self.dups, "advances": self.advances, "steps": self.steps, "cap": self.cap,
-            "disconnects": self.disconnects, "prefix_chunks": self.prefix_chunks, "prefix_unacked": self.prefix_unacked,
+            "disconnects": self.disconnects, "prefix_chunks": self.prefix_chunks, "prefix_unacked": self.prefix_unacked, "prefix_stale": self.prefix_stale,
             "c01": self.c01, "c02": self.c02, "c03": self.c03, "c04": self.c04,
         })
     }
@@ -128,6 +132,7 @@ impl Cfg {
             disconnects: v["disconnects"].as_u64()? as u8,
             prefix_chunks: v["prefix_chunks"].as_u64()? as u16,
             prefix_unacked: v["prefix_unacked"].as_u64()? as u8,
+            prefix_stale: v["prefix_stale"].as_bool().unwrap_or(false),
             c01: v["c01"].as_bool()?,
             c02: v["c02"].as_bool()?,
             c03: v["c03"].as_bool()?,
@@ -136,7 +141,7 @@ impl Cfg {
     }
     pub fn label(&self) -> String {
         format!(
-            "{} v{}/{} n{}/{} sizes{:?} drops{} dups{} adv{} steps{:?} cap{} disc{} prefix{}+{}",
+            "{} v{}/{} n{}/{} sizes{:?} drops{} dups{} adv{} steps{:?} cap{} disc{} prefix{}+{}{}",
             self.variant.name(),
             self.vsends[0],
             self.vsends[1],
@@ -150,7 +155,8 @@ impl Cfg {
             self.cap,
             self.disconnects,
             self.prefix_chunks,
-            self.prefix_unacked
+            self.prefix_unacked,
+            if self.prefix_stale { "+stale" } else { "" }
         )
     }
 }
@@ -500,6 +506,7 @@ impl<E: Ep> NetModel<E> {
         // The acceptor of every variant goes online only on the first chunk
         // packet: one non-vital chunk from the client.
         let n = self.cfg.prefix_chunks.max(1);
+        let mut stale: [Vec<Arc<Dgram>>; 2] = [Vec::new(), Vec::new()];
         for i in 0..n {
             for side in [0u8, 1u8] {
                 s.b.vsends = [255, 255];
@@ -514,9 +521,13 @@ impl<E: Ep> NetModel<E> {
                     )
                     .expect("script");
                 s = self.apply(&s, Act::Flush(side)).expect("script");
+                if i == 0 && self.cfg.prefix_stale {
+                    // the network duplicates this datagram and holds the copy back
+                    let to = 1 - side as usize;
+                    stale[to] = s.net[to].clone();
+                }
                 drain(self, &mut s);
             }
-            let _ = i;
         }
         // Exchange acks: advance to the keep-alive deadline and tick both.
         for _ in 0..2 {
@@ -536,6 +547,13 @@ impl<E: Ep> NetModel<E> {
             assert_eq!(s.mon.del_v[side] as usize, s.mon.sub_v[side].len());
         }
         self.base = n;
+        for to in 0..2 {
+            for d in std::mem::take(&mut stale[to]) {
+                let q = &mut s.net[to];
+                let pos = q.binary_search_by(|x| x.as_ref().cmp_key(&d)).unwrap_or_else(|p| p);
+                q.insert(pos, d);
+            }
+        }
         // Unacked chunks at the start: queued and flushed, datagrams lost.
         s.mon.sub_v = [Vec::new(), Vec::new()];
         s.mon.del_v = [0, 0];
